@@ -1,8 +1,6 @@
 import PedalModel.DriverLoop
+import PedalModel.CaitWire
 open Pedal
 
-/- Line-protocol driver for C11: replace the stub dispatch with the model's request handlers. -/
-def dispatch : List String → String
-  | _ => "bad-request"
-
-def main : IO Unit := driverMain dispatch
+/- Line-protocol driver for C11 (same CAIT model as C10). -/
+def main : IO Unit := driverMain Pedal.Cait.dispatch
